@@ -938,6 +938,16 @@ def report(ctx, chk):
         q for q in reg_fns if chk.fired_any.get(q) and not chk.fired_nonid.get(q))
     ctx.extra["rules_never_fired"] = sorted(q for q in reg_fns if not chk.fired_any.get(q))
     ctx.extra["registered_rule_functions_exact_interps"] = len(reg_fns)
+    per_module = OrderedDict()
+    for q in reg_fns:
+        mod = q.rsplit(".", 1)[0]
+        ent = per_module.setdefault(mod, {"registered": 0, "fired_nonidentity": 0, "not_fired": []})
+        ent["registered"] += 1
+        if chk.fired_nonid.get(q):
+            ent["fired_nonidentity"] += 1
+        else:
+            ent["not_fired"].append(q.rsplit(".", 1)[1])
+    ctx.extra["rules_per_module"] = per_module
     ctx.extra["firings"] = {"lean_decided": chk.lean_checked, "python_oracle_decided": chk.oracle_checked,
                             "funsor_eval_decided": chk.feval_checked,
                             "rule_calls": chk.rec.calls, "declined_calls": chk.rec.declined}
@@ -977,7 +987,7 @@ def search(ctx, broken):
     import re as _re
     # rules registered in the source but not classified in Props/C02.lean (a newly registered rule)
     try:
-        props = (LEAN / "FunsorVerif" / "Props" / "C02.lean").read_text()
+        props = (LEAN / "FunsorVerif" / "Props" / "C02" / "Coverage.lean").read_text()
         classified = set(_re.findall(r'"(funsor\.[A-Za-z0-9_.<>]+)"', props))
         unclassified = sorted(set(e[2] for e in registry_entries()) - classified)
     except Exception:
